@@ -419,10 +419,13 @@ func exhaustiveC02(thorough bool, emit func(C02Case) bool) {
 	}
 	// multi-byte tokens at the start and inside of every field, first and later records
 	for _, tok := range gen.HostileTokens {
-		for pos := 0; pos < 2; pos++ {
+		for pos := 0; pos < 3; pos++ {
 			val := append(append(gen.B{}, tok...), 'x')
 			if pos == 1 {
 				val = append(append(gen.B{'x'}, tok...), 'y')
+			}
+			if pos == 2 {
+				val = append(gen.B{}, tok...) // the token is the whole field
 			}
 			if bytes.ContainsAny(val, "\r\n") {
 				continue
